@@ -167,6 +167,39 @@ def gen_ir(g, rng, cov, n_modules=None, entry_later=False, with_aux=True):
             else:
                 ir.modules.append(m)
         mods.append(m)
+    # nodes that were built in one place and MOVED to another before the IR is saved (inside their module, so that the IR stays
+    # self-contained): through the new owner's collection (add / update / |=) or through the parent attribute
+    for m in mods:
+        secs = list(m.sections)
+        if len(secs) >= 2 and rng.random() < 0.5:
+            src = rng.choice([x for x in secs if len(x.byte_intervals)] or [None])
+            if src is not None:
+                dst = rng.choice([x for x in secs if x is not src])
+                bi = rng.choice(list(src.byte_intervals))
+                how = rng.choice(["add", "update", "ior", "attr"])
+                if how == "add":
+                    dst.byte_intervals.add(bi)
+                elif how == "update":
+                    dst.byte_intervals.update(x for x in [bi])
+                elif how == "ior":
+                    dst.byte_intervals |= {bi}
+                else:
+                    bi.section = dst
+                cov.hit("moved-interval:" + how)
+        bis = [b for x in m.sections for b in x.byte_intervals]
+        if len(bis) >= 2 and rng.random() < 0.5:
+            src = rng.choice([b for b in bis if len(b.blocks)] or [None])
+            if src is not None:
+                dst = rng.choice([b for b in bis if b is not src])
+                blk = rng.choice(list(src.blocks))
+                how = rng.choice(["add", "update", "attr"])
+                if how == "add":
+                    dst.blocks.add(blk)
+                elif how == "update":
+                    dst.blocks.update([blk])
+                else:
+                    blk.byte_interval = dst
+                cov.hit("moved-block:" + how)
     if entry_later and len(mods) >= 2:
         later = [b for b in mods[-1].code_blocks]
         if later:
